@@ -293,48 +293,79 @@ def i5(chk, repo):
     ok_first = first_call is not None and (not reads or (first_call.lineno, first_call.col_offset) < (reads[0].node.lineno, reads[0].node.col_offset))
     chk.require(ok_first, "C11-I5", where, "the file descriptor is read first", "the file descriptor is not read before the line records", key="read_metadata:descriptor-first")
     if len(reads) != 1:
-        raise AnalysisError(f"{where}: {len(reads)} read sites in the body of read_metadata (reads moved into a helper or a loop): the request pattern is not one of the recognised forms")
-    ok = True
-    detail = ""
-    if ok:
-        r = reads[0].node
-        comp = None
-        for p in parents(r):
-            if isinstance(p, (ast.GeneratorExp, ast.ListComp)):
-                comp = p
+        raise AnalysisError(f"{where}: {len(reads)} read sites in the body of read_metadata (reads moved into a helper that is not a plain function): the request pattern is not one of the recognised forms")
+    r = reads[0].node
+    from ..dataflow import enclosing_iterations
+    from ..readloop import ReadLoop
+    from ..symexpr import poly_of
+    its = enclosing_iterations(r, rm.node)
+    if len(its) != 1:
+        if not its:
+            raise AnalysisError(f"{where}: the chunk read is not inside a loop or comprehension over the chunks: request pattern not recognised")
+        chk.fail("C11-I5", where, f"the chunk read {short(r, 40)} is repeated by {len(its)} nested loops: more requests than one per chunk", key="read_metadata:chunk-reads")
+        return
+    rl = ReadLoop(repo, rm, r)
+    size = rl.term(r.args[0]) if r.args else None
+    if size is None:
+        return  # unsized read: reported by C11-I4
+    # size = <records of this chunk> * <record length>
+    R = [a for mono, c in poly_of(size).items() for a in mono if a[0] == "sub" and a[2] == ("const", "str", "sar_data_record_length")]
+    whole = bool(R) and all(R[0] in mono for mono, c in poly_of(size).items())
+    if not whole:
+        raise AnalysisError(f"{where}: the request size {show(size)[:120]} is not <records> * <record length>; request pattern not decided")
+    it, tgt = its[0]
+    detail = f"read({show(size)[:80]}) once per iteration of {short(it, 50) if it is not None else 'the while loop'}"
+    if it is None:
+        # while loop: the number of requests follows the recurrence decided by C01-R8 / C06 (received < n, k = min(rpc, n - received))
+        from .c01 import request_recurrence
+        request_recurrence(_Quiet(chk, "C11-I5"), repo, rm)
+        chk.ok("C11-I5", where, f"one sized read per iteration of the request recurrence: {detail}", sample={"detail": detail})
+        return
+    # the iterable has one entry per chunk, in order: a list/range over the chunk index, not filtered, not re-ordered
+    src = it
+    seen = 0
+    while seen < 6:
+        seen += 1
+        if isinstance(src, ast.Name):
+            d = rl.flow.reaching_def(src.id, src)
+            if d is None:
                 break
-            if isinstance(p, ast.For):
-                comp = p
-                break
-        if comp is None:
-            raise AnalysisError(f"{where}: the chunk read is not inside a comprehension/for over the chunk sizes: request pattern not recognised")
-        else:
-            gen = comp.generators[0] if not isinstance(comp, ast.For) else comp
-            single = isinstance(comp, ast.For) or (len(comp.generators) == 1 and not gen.ifs)
-            it = gen.iter
-            tgt = gen.target
-            flow = Flow(rm)
-            arg = r.args[0] if r.args else None
-            got = None
-            shape_ok = False
-            try:
-                got = Canon({})(flow.expand(arg)) if arg is not None else None
-            except Undecidable:
-                got = None
-            if got is not None and got[0] == "poly" and len(got[1]) == 1:
-                mono, coeff = got[1][0]
-                atoms = list(mono)
-                if coeff == 1 and len(atoms) == 2:
-                    names = [a for a in atoms if a == ("name", getattr(tgt, "id", None))]
-                    lens = [a for a in atoms if a[0] == "sub" and a[2] == ("const", "str", "sar_data_record_length")]
-                    shape_ok = len(names) == 1 and len(lens) == 1
-            ok = single and isinstance(it, ast.Name) and isinstance(tgt, ast.Name) and shape_ok and loop_depth(r, rm.node) == 1
-            detail = f"read({show(got) if got else '?'}) per element of {norm(it)}"
-            # the iterable is the list of chunk sizes (not a re-ordered/filtered copy)
-            if ok:
-                d = flow.reaching_def(it.id, it)
-                ok = isinstance(d, ast.ListComp) and len(d.generators) == 1 and not d.generators[0].ifs and "range" in norm(d.generators[0].iter)
-                detail += f"; {it.id} is one entry per chunk index in order" if ok else f"; {it.id} is {short(d, 60) if d is not None else '?'}"
+            src = d
+            continue
+        if isinstance(src, ast.Call) and norm(src.func) in ("zip",) and src.args:
+            src = src.args[0]
+            continue
+        if isinstance(src, ast.Call) and norm(src.func) in ("list", "tuple", "iter", "enumerate") and src.args:
+            src = src.args[0]
+            continue
+        break
+    ok = False
+    if isinstance(src, (ast.ListComp, ast.GeneratorExp)) and len(src.generators) == 1 and not src.generators[0].ifs and "range" in norm(src.generators[0].iter):
+        ok = True
+        detail += f"; the chunk list has one entry per chunk index in order ({short(src.generators[0].iter, 40)})"
+    elif isinstance(src, ast.Call) and norm(src.func) == "range":
+        ok = True
+        detail += f"; iterates {short(src, 40)}"
+    elif isinstance(src, ast.Call) and norm(src.func) in ("sorted", "reversed", "set", "filter"):
+        detail += f"; the chunk list is re-ordered or filtered by {short(src, 40)}"
+    else:
+        raise AnalysisError(f"{where}: the reads iterate over {short(src, 60)}: not a list over the chunk index; request pattern not decided")
     chk.require(ok, "C11-I5", where, f"one sized read per chunk in file order: {detail}",
                 f"metadata pass does not read one chunksize*record_size block per chunk in order: {detail}", key="read_metadata:chunk-reads",
                 sample={"detail": detail})
+
+
+class _Quiet:
+    """forwards obligations of a shared rule under another rule id"""
+
+    def __init__(self, chk, rid):
+        self.chk, self.rid = chk, rid
+
+    def ok(self, rid, *a, **k):
+        return self.chk.ok(self.rid, *a, **k)
+
+    def fail(self, rid, *a, **k):
+        return self.chk.fail(self.rid, *a, **k)
+
+    def require(self, cond, rid, *a, **k):
+        return self.chk.require(cond, self.rid, *a, **k)
